@@ -441,6 +441,7 @@ func TestVerifC06(t *testing.T) {
 	c.Assume("reference boolean evaluator in the harness; key extraction is checked by C05, unit spelling by C04")
 	c06Trees(c, mc.Pick(c, 6, 7))
 	c06Lists(c, mc.Pick(c, 4, 5))
+	c06Streams(c, mc.Pick(c, 4, 5))
 	if code := c.Finish(); code != 0 {
 		os.Exit(code)
 	}
